@@ -29,7 +29,7 @@ def consts_of(scn):
     pay = dict(scn["payloads"])
     svc = dict(scn.get("services", {}))
     allp = {**pay, **svc}
-    ends = {p: set() for p in allp}
+    ends = {p: ({how_class(allp[p]["immediate"])} if allp[p].get("immediate") else set()) for p in allp}
     pre, seen_accept, execs = set(), False, []
     for op in scn["script"]:
         o = op["op"]
@@ -148,6 +148,8 @@ def script_of_path(path, base, rnd, hows):
     for a in path:
         k = a["a"]
         if k == "accept":
+            if a["p"] != "1" and not accepted:
+                continue  # the harness's runner 1 always accepts first; competitors come later
             if a["p"] == "1":
                 script += [{"op": "accept"}, {"op": "wait_running"}]
                 accepted = True
@@ -221,12 +223,15 @@ def normalize(scn, raw):
     ev = raw["events"]
     c = consts_of(scn)
     svc = set(c["services"])
+    # which runner a hook event belongs to: the latest accept.call on its thread before it
+    main_tid = next((e["tid"] for e in ev if e["e"] == "accept.call" and e["r"] == 1), None)
     acc_tid = {}
-    for e in ev:
+    owner = {}
+    for i, e in enumerate(ev):
         if e["e"] == "accept.call":
             acc_tid[e["tid"]] = e["r"]
-    main_tid = next((t for t, r in acc_tid.items() if r == 1), None)
-    trio_tid = next((e["tid"] for e in ev if e["e"] == "t.run.begin" and acc_tid.get(main_tid) == 1), None)
+        owner[i] = acc_tid.get(e["tid"])
+    trio_tid = next((e["tid"] for e in ev if e["e"] == "t.run.begin"), None)
     loops = {"asyncio": {}, "trio": {}}
 
     def tidc(e):
@@ -260,6 +265,8 @@ def normalize(scn, raw):
             out.append({"e": "Step", "p": e["p"]})
         elif n == "p.end":
             out.append({"e": "End", "p": e["p"], "how": how_class(e["how"])})
+        elif n == "p.cancel.swallowed":
+            out.append({"e": "Step", "p": e["p"]})
         elif n == "p.cancelled":
             out.append({"e": "Cancelled", "p": e["p"]})
         elif n == "p.cleanup.step":
@@ -282,12 +289,12 @@ def normalize(scn, raw):
                 nxt = next((f for f in ev[i + 1:] if f["tid"] == e["tid"] and f["e"] in ("accept.ret", "mr.running.set")), None)
                 ok = not (nxt is not None and nxt["e"] == "accept.ret" and nxt.get("exc") == "RuntimeError" and not nxt.get("wrapped"))
             out.append({"e": "AcceptCall", "r": e["r"], "ok": ok})
-        elif n == "mr.running.set" and e["tid"] in acc_tid:
-            out.append({"e": "RunningSet", "r": acc_tid[e["tid"]]})
-        elif n == "mr.aclose.begin" and e["tid"] in acc_tid:
-            out.append({"e": "CloseBegin", "r": acc_tid[e["tid"]]})
-        elif n == "mr.aclose.end" and e["tid"] in acc_tid:
-            out.append({"e": "CloseEnd", "r": acc_tid[e["tid"]]})
+        elif n == "mr.running.set" and owner.get(i):
+            out.append({"e": "RunningSet", "r": owner[i]})
+        elif n == "mr.aclose.begin" and owner.get(i):
+            out.append({"e": "CloseBegin", "r": owner[i]})
+        elif n == "mr.aclose.end" and owner.get(i):
+            out.append({"e": "CloseEnd", "r": owner[i]})
         elif n == "accept.ret":
             if e["outcome"] == "returned":
                 kind = "returned"
@@ -417,7 +424,20 @@ def fingerprint(name, scn, ev, idx):
     if name == "ShutdownDoesNotRaise":
         ret = next((x for x in ev if x["e"] == "ShutdownRet" and not x.get("ok", True)), {})
         fp["exception"] = ret.get("exc", "")
-        fp["raced_failure"] = any(x["e"] == "End" and x.get("how") in ("val", "exc", "base") for x in ev)
+        # what the failing shutdown() raced with: a payload failure closing the runtime, or
+        # another shutdown() that had not returned yet
+        open_calls, overlapped = 0, False
+        for x in ev:
+            if x["e"] == "ShutdownCall" and not x.get("teardown"):
+                open_calls += 1
+                overlapped = overlapped or open_calls > 1
+            elif x["e"] == "ShutdownRet":
+                if not x.get("ok", True):
+                    break
+                open_calls = max(0, open_calls - 1)
+        failed = any(x["e"] == "End" and x.get("how") in ("val", "exc", "base") for x in ev)
+        fp.pop("exception", None)
+        fp["raced"] = "failure" if failed else ("shutdown" if overlapped else "nothing")
     if name in ("ExecReturnsObserved", "AdoptReturnsObserved", "TerminationObserved"):
         # is an adopt() still waiting to return at the end of the trace (cross-flavour blocking)?
         calls = [x["p"] for x in ev if x["e"] == "AdoptCall"]
